@@ -134,14 +134,23 @@ class Ctx:
         lines = []
         nviol = 0
         seen_known = set()
+        replay_cache = {}
+        shown = 0
+        MAXSHOW = 8
         for ob in failed:
             k = self.match_known(ob)
             rep, reproduced = ({}, None)
             if replayer is not None:
-                try:
-                    rep, reproduced = replayer(ob)
-                except Exception as e:  # replay trouble must not hide the failure
-                    rep, reproduced = ({"replay_error": repr(e)}, None)
+                ck = (ob.unit, ob.function)
+                if ck in replay_cache and len(replay_cache) >= 3:
+                    rep, reproduced = replay_cache[ck]       # same unit/function: reuse the native run
+                    rep = dict(rep, note="replay shared with an earlier failed obligation of the same unit/function")
+                else:
+                    try:
+                        rep, reproduced = replayer(ob)
+                    except Exception as e:  # replay trouble must not hide the failure
+                        rep, reproduced = ({"replay_error": repr(e)}, None)
+                    replay_cache[ck] = (rep, reproduced)
             if k is not None:
                 # a known finding only covers witnesses in its recorded class
                 wc = k.get("witness_class")
@@ -160,10 +169,12 @@ class Ctx:
                        replay=rep, reproduced_on_real_code=reproduced)
             json.dump(rec, open(path, "w"), indent=1, default=str)
             tail = "" if reproduced else " no-failing-input-found"
-            lines.append("VIOLATION property=%s replay=%s obligation=%s%s" % (self.pid, path, ob.name, tail)
-                         if False else
-                         "VIOLATION property=%s replay=%s%s" % (self.pid, path, tail))
-            lines.append("  failed-obligation: %s (%s)" % (ob.name, ob.detail[:200].replace("\n", " ")))
+            shown += 1
+            if shown <= MAXSHOW:
+                lines.append("VIOLATION property=%s replay=%s%s" % (self.pid, path, tail))
+                lines.append("  failed-obligation: %s (%s)" % (ob.name, ob.detail[:200].replace("\n", " ")))
+        if shown > MAXSHOW:
+            lines.append("  ... and %d more failed obligations (replay files in %s, list in the evidence file)" % (shown - MAXSHOW, self.out))
         # open known findings that did NOT reproduce: say so (not an alarm)
         for k in self.known:
             if k.get("property") == self.pid and k.get("status") == "open" and k["id"] not in seen_known:
